@@ -1,6 +1,7 @@
 //! C01 stack meter: how many bytes of native stack each phase of loading / rendering a template uses.
 //!
 //! Request (JSON line): {"template": src, "ctx": json, "stack_kib": n (default 262144 = 256 MiB), "height_only": bool,
+//!                        "format_only": fmt (+ "style", "args": minijinja::formatting::format called directly),
 //!                        "load_only": bool (+ "syntax", "settings": load and render with a custom syntax, answer like `prog`)}
 //! Response: {"ast_height": nodes on the longest path of the AST, "parse": bytes, "parse_ok": bool, "compile": bytes (code generation alone), "drop_ast": bytes, "load": bytes, "load_ok": bool,
 //!            "undeclared": bytes, "render": bytes, "render_ok": bool, "drop_env": bytes}
@@ -72,6 +73,28 @@ fn run(req: &J, stack: usize) -> J {
     let src = req.get("template").and_then(|x| x.as_str()).unwrap_or("").to_string();
     let ctx = Value::from(minijinja::value::Serde(req.get("ctx").cloned().unwrap_or(J::Null)));
     let mut out = serde_json::Map::new();
+    if let Some(fmt) = req.get("format_only").and_then(|x| x.as_str()) {
+        // the formatting module called directly (the str.format style is otherwise only reachable through
+        // minijinja-contrib's pycompat callback): {"format_only": fmt, "style": "printf"|"str", "args": [json, ..]}
+        let style = match req.get("style").and_then(|x| x.as_str()) {
+            Some("str") => minijinja::formatting::FormatStyle::StrFormat,
+            _ => minijinja::formatting::FormatStyle::Printf,
+        };
+        let args: Vec<Value> = req
+            .get("args")
+            .and_then(|x| x.as_array())
+            .map(|a| a.iter().map(|j| Value::from(minijinja::value::Serde(j.clone()))).collect())
+            .unwrap_or_default();
+        let r = match minijinja::formatting::format(style, fmt, &args) {
+            Ok(s) => json!({"ok": s.len()}),
+            Err(e) => {
+                let _ = format!("{} {:#} {:?}", e, e, e);
+                json!({"err": mjverif::err_code(e.kind())})
+            }
+        };
+        out.insert("render".into(), r);
+        return J::Object(out);
+    }
     if req.get("load_only").and_then(|x| x.as_bool()).unwrap_or(false) {
         // lexer / parser boundary families with a configurable syntax (the generic `prog` bin has none):
         // {"syntax": {"line_statement_prefix": s, "line_comment_prefix": s, "block": [s, e], "variable": [s, e],
